@@ -355,6 +355,10 @@ def statements(ck, ctx):
         else:
             targets = [bb_ for bb_, s_, e_ in C.ok_return_blocks(ctx, fb)]
         ok = bool(gates) and bool(targets) and all(Q.gated(fcfg, x, gates)[0] for x in targets)
+        if then:
+            ids_ = [bb_ for bb_, _ in Q.sites_in(fb, "parse::Parser::read_ident")]
+            nls_ = [bb_ for bb_, t_ in Q.sites_in(fb, "scanner::Scanner::expect") if FR.arg(bb_, 1) == ("const", 10)]
+            ok = ok and len(ids_) == 1 and bool(nls_) and all(fcfg.dominates(ids_[0], x) for x in nls_)
         ck.ob("statements", "header-newline|%s" % fn.split("::")[-1], ok, "%s %s only after expect('\\n') succeeded" % (fn.split("::")[-1], "reads its indented block" if then else "returns Ok"), span=fb.loc, fn=fn)
         ck.functions.add(fn)
     # `$ ` `$$` `$:` stand for exactly the escaped character; `$`-newline stands for nothing
